@@ -444,19 +444,35 @@ def explain(case, clause, detail):
         if not (2 <= at <= len(toks)):
             return None
         cur, prev = toks[at - 1], toks[at - 2]
-        if cur[0] == "op" and cur[1] in ("+", "-") and prev[0] == "op":
-            cand = present & {"unary-sign-left-of-mul", "unary-plus-left-of-pow",
-                              "signed-literal-as-operand"}
-            if cand:
-                # attribute to the shape whose operand text follows the sign
-                nxt = toks[at] if at < len(toks) else ["eof", ""]
-                if "signed-literal-as-operand" in cand and nxt[0] == "lit":
-                    return {"signed-literal-as-operand"}
-                rest = cand - {"signed-literal-as-operand"}
-                if rest:
-                    return {sorted(rest)[0]}
-                return None
+        if not (cur[0] == "op" and cur[1] in ("+", "-") and prev[0] == "op"):
+            return None
+        # Which node wrote that sign?  Every unary +/- node (and signed literal)
+        # writes exactly one sign token in prefix position, in text order.
+        k = sum(1 for i in range(at) if _prefix_sign(toks, i))
+        signs = [(n, par, slot) for n, par, slot in L.walk(gt)
+                 if n["k"] == "un" and n["op"] in ("+", "-")]
+        total = sum(1 for i in range(len(toks)) if _prefix_sign(toks, i))
+        if total != len(signs) or not 1 <= k <= len(signs):
+            return None
+        node, par, slot = signs[k - 1]
+        if node["op"] != cur[1]:
+            return None
+        if node.get("sl"):
+            return {"signed-literal-as-operand"}
+        if par is not None and par["k"] == "bin" and slot == "l":
+            if par["op"] in ("*", "/"):
+                return {"unary-sign-left-of-mul"}
+            if par["op"] == "**" and node["op"] == "+":
+                return {"unary-plus-left-of-pow"}
+        return None
     return None
+
+
+def _prefix_sign(toks, i):
+    '''Is token i a + or - in prefix (unary) position?'''
+    t = toks[i]
+    return t[0] == "op" and t[1] in ("+", "-") and \
+        (i == 0 or toks[i - 1][0] in ("op", "lp", "cm"))
 
 
 def _mk_matcher(fid):
